@@ -479,9 +479,16 @@ func init() {
 
 	// ---- math/rand ----
 	reg("math/rand.Uint32", func(p *Path, th *thread, caller *frame, pos token.Pos, fn *ssa.Function, args []Value) Value {
+		if p.randZero {
+			p.note("bound: math/rand returns 0 (new records are inserted at the front of the member table)")
+			return BV(32, 0)
+		}
 		return p.havoc("rand.Uint32", 32)
 	})
 	reg("math/rand.Int63", func(p *Path, th *thread, caller *frame, pos token.Pos, fn *ssa.Function, args []Value) Value {
+		if p.randZero {
+			return BV(64, 0)
+		}
 		v := p.havoc("rand.Int63", 64)
 		return Bin(OAnd, v, BV(64, math.MaxInt64))
 	})
